@@ -58,7 +58,12 @@ def solve_lu(matrix, rhs, /):
 
 
 def lstsq_svd(matrix, rhs, /):
-    return jnp.linalg.lstsq(matrix, rhs)[0]
+    # The pseudo-inverse has a derivative rule (Golub & Pereyra) that does not divide by
+    # differences of singular values; differentiating the SVD inside jnp.linalg.lstsq
+    # returns NaN whenever singular values coincide (e.g. equal noise levels).
+    # The cut-off for small singular values is the one of jnp.linalg.lstsq.
+    rtol = jnp.finfo(matrix.dtype).eps * max(matrix.shape)
+    return jnp.linalg.pinv(matrix, rtol=rtol) @ rhs
 
 
 def lstsq_lsmr(vecmat_fun, rhs, /, *, x0, damp, tol, **lsmr_kwargs):
